@@ -1,5 +1,6 @@
 From Coq Require Import List Arith Bool String.
 From Wire Require Import Sets Acyclic Solve Names Front Exec Model Emit Cli CopyAst ModelThms NamesThms Bridge ProcessWF Perm PermModel EmitThms.
+From Wire Require Show.
 Import ListNotations.
 
 (* The property theorems.  This file contains nothing but statements closed by [exact lemma] and the
@@ -113,6 +114,28 @@ Theorem C14_emitted_pass_names_fresh : forall (E : env) inj cs g,
   names_ok ig /\ locals_fresh E ig g2 /\ ~ In (ig_err ig) (file_names E g2) /\ snd (inject_pass E inj cs g2) = g2.
 Proof. exact emitted_pass_names_fresh. Qed.
 Print Assumptions C14_emitted_pass_names_fresh.
+
+(* ------------------------------------------------------------------ C19 (show) *)
+(* the grouping `wire show` prints: whenever gather's loop finishes, every provided type sits in exactly one group,
+   the group's inputs are exactly the outside types needed to obtain it, and two types share a group iff they need
+   the same outside types *)
+Theorem C19_show_groups_by_needed_inputs : forall (deps : nat -> list nat) (is_input : nat -> bool) fuel outputs s,
+  Show.grun deps is_input fuel Show.gs0 [] outputs = Some s ->
+  (forall t, In t outputs -> is_input t = false ->
+     exists i ins outs, Show.ivget (Show.iv s) t = Some (Some i) /\ nth_error (Show.groups s) i = Some (ins, outs) /\ In t outs /\
+                        NoDup ins /\ forall x, In x ins <-> Show.needs deps is_input t x) /\
+  (forall t t' i j, Show.ivget (Show.iv s) t = Some (Some i) -> Show.ivget (Show.iv s) t' = Some (Some j) ->
+     (i = j <-> forall x, Show.needs deps is_input t x <-> Show.needs deps is_input t' x)) /\
+  (forall i ins outs t, nth_error (Show.groups s) i = Some (ins, outs) -> In t outs -> Show.ivget (Show.iv s) t = Some (Some i)).
+Proof. exact Show.gather_groups_correct. Qed.
+Print Assumptions C19_show_groups_by_needed_inputs.
+
+(* the included-sets list: exactly the names of the sets reachable through Imports, the shown set excepted *)
+Theorem C19_show_lists_included_sets : forall fuel key root res, Show.coherent root ->
+  Show.imports_run fuel key [root] [] [] = Some res ->
+  forall n, In n res <-> (Show.name_eqb n key = false /\ exists d, Show.reach root d /\ Show.ns_name d = Some n).
+Proof. exact Show.show_imports_exact. Qed.
+Print Assumptions C19_show_lists_included_sets.
 
 (* ------------------------------------------------------------------ C09 *)
 Theorem C09_results : forall rs c e, func_output rs = FoOk c e <-> legal_results rs c e.
